@@ -244,7 +244,7 @@ def run_case(ctx, res, p):
 CONFIGS = ["full", "full_nystroem", "sparse_cholesky", "fixed"]
 
 
-def gen_case(rng, est=None, kind=None, normalize=None, const_col=None):
+def gen_case(rng, est=None, kind=None, normalize=None, const_col=None, float_d=None):
     est = est or ["density", "density", "time", "dim"][rng.integers(4)]
     if kind is None:
         kinds_ = ["isometry", "scale", "perm"] + (["time"] if est == "time" else [])
@@ -283,6 +283,10 @@ def gen_case(rng, est=None, kind=None, normalize=None, const_col=None):
         # per-time-point normalisation: the ls heuristic must keep using within-time-point distances
         # (True: equal targets, so the correction differs between the unequal time points; a list: explicit unequal targets)
         gp = dict(gp, normalize_per_time_point=[True, [4.0, 9.0]][int(rng.integers(2))])
+    if est != "dim" and (float_d if float_d is not None else rng.random() < 0.3):
+        # a supplied non-integer dimensionality (what d_method="fractal" produces): every place that uses d - the MLE behind
+        # mu, the loss, the starting point - must use the same real number, or the -d*log(a) shift is broken
+        gp = dict(gp, d=float([2.5, 1.7, 0.6, 3.3][int(rng.integers(4))]))
     kinds = ["isometry", "scale", "perm"] + (["time"] if est == "time" else [])
     kind = kind or kinds[rng.integers(len(kinds))]
     p = {"op": "sym", "estimator": est, "config": cfg, "gp_kwargs": gp, "X": X, "Xu": Xu, "Xq": Xq, "kind": kind,
@@ -318,6 +322,11 @@ def run(ctx, res):
     for est, kind, nz in plan:
         if time.time() > t_end + budget:       # at most twice the budget for the fixed plan
             break
-        run_case(ctx, res, gen_case(rng, est, kind, nz, const_col=(est == "density" and kind == "isometry") or None))
+        run_case(ctx, res, gen_case(rng, est, kind, nz, const_col=(est == "density" and kind == "isometry") or None,
+                                    float_d=False))
+    for est, kind in (("density", "scale"), ("time", "scale")):     # non-integer d under rescaling
+        if time.time() > t_end + budget:
+            break
+        run_case(ctx, res, gen_case(rng, est, kind, None, float_d=True))
     while time.time() < t_end:
         run_case(ctx, res, gen_case(rng))
